@@ -25,6 +25,28 @@ def run(ctx: Ctx):
 
     check_missing_table(ctx, "R12.c")  # removal never renumbers the missing variables either
     check_backend_overrides(ctx, "R12.b")
+    # ---- R12.d the schemes define what they read ------------------------------------------------------------------
+    ctx.rule("R12.d", "a scheme defines every helper name its update formula reads, on every path that reads it: it never relies on a definition of the model of the same name (the update formula is generated text, not an edge of the dependency relation - removal of unused definitions would drop the model's)", floor=2)
+    from sa import schemes_model as _S
+
+    from . import common as _common
+
+    def _has(term, atom) -> bool:
+        return term == atom or (isinstance(term, tuple) and any(_has(x, atom) for x in term))
+
+    for bname, m in sorted(_common.scheme_models(ctx).items()):
+        for r in m.rows:
+            if r.store is None or not _has(r.store[1], _S.LIN):
+                continue
+            lin_def = [e for e in r.emissions[: r.store[3]] if e[0] == _S.LIN]
+            ctx.check(
+                bool(lin_def) and r.lin_defined_before_use is not False,
+                "R12.d",
+                m.func.key(f"defines-what-it-reads::{sorted(_S.normalise_lits(r.lits))}"),
+                "the linearisation helper is printed before the update that reads it",
+                f"{m.func.name} path [{r.raw_pred}] reads the linearisation helper in its update but does not print its definition on that path: the generated step then reads a name only the model defines - which `remove_unused` drops, since nothing in the model uses it",
+                m.func.where(r.store[2]),
+            )
     # the parameter layout: every producer of parameter slots numbers the same sequence (a producer that filters by use
     # *before* numbering renumbers the used parameters)
     slot_families(ctx, "R12.c", only_family="PARAM", check_guard=False, check_ru=False)
